@@ -706,7 +706,7 @@ class Derived(HistBase):
     def cases(self, tier, rng):
         quick = tier == "quick"
         for n, when in ((2, "after"), (3, "before")) if quick else ((2, "after"), (2, "before"), (3, "after"), (3, "before")):
-            for e_ix in (3, 4, 5, 6, 7, 0):
+            for e_ix in (3, 4, 5, 6, 7, 0) if not (quick and n == 3) else (3, 4, 0):
                 E0 = (0, e_ix)
                 variants = []
                 for kind in ("ow", "tw", "id", "same", "twc"):
@@ -715,7 +715,7 @@ class Derived(HistBase):
                 variants += [("mf", "multi"), ("mt", "multi"), ("mo", "ow2")]
                 for dirn, kind in variants:
                     for chain in (0, 1):
-                        if quick and chain and kind in ("tw", "twc", "ow2"):
+                        if quick and chain and kind not in ("ow", "same"):
                             continue
                         ids = Ids()
                         ops = self.base(ids, n, when)
@@ -779,7 +779,7 @@ class Histories(HistBase):
     budget_share = 1.2
 
     def cases(self, tier, rng):
-        count = 12000 if tier == "quick" else 150000
+        count = 7000 if tier == "quick" else 150000
         for _ in range(count):
             yield self.one(rng, tier)
 
@@ -1010,9 +1010,13 @@ PROP = Property(
     trusted_base=["CPython set iteration order is deterministic for two sets built the same way in one process "
                   "(the observed order of `_links | _inverse_links` is fed to the model's literal loop; the Spec does not depend on it)",
                   "numpy integer/float arithmetic on small integers is exact"],
-    assumptions=["link functions are the generated integer affine / two-input linear maps; datasets have no coordinates, "
-                 "no internal derived components and no key joins"],
+    assumptions=["link functions are the generated integer affine / two-input linear maps; datasets have no world coordinates "
+                 "and no key joins; internal derived attributes are defined by links without inverse",
+                 "manager_inv / manager_no_dangling: well-formed histories (runWf); value clauses of manager_reads / "
+                 "selection_via_links: internalFirst (the oracle itself covers all generated histories)"],
     rule="exhaustive: all sequences of <=2 (thorough <=3) links of four kinds over a 5-cid pool; chains/cycles/diamonds/multi-input/"
-         "duplicate/inverse/link-helper structures with every single removal; seeded random histories beyond; non-trivial = some "
-         "dataset reads a foreign attribute at some step",
+         "duplicate/inverse/link-helper structures with every single removal; internal derived attributes (depth 1 and 2, two-input, "
+         "pixel-based) and pixel ids as from/to endpoint of every link kind with removal of each root / intermediate / endpoint "
+         "(cascade), in and outside delay blocks, dataset removal, update_id; seeded random histories mixing all of these beyond; "
+         "non-trivial = some dataset reads a foreign attribute at some step",
 )
